@@ -274,7 +274,10 @@ func diffAbs(a, b worldAbs) string {
 }
 
 var c20Profile = e2Profile{name: "c20", maxJCs: 2, cron: true, lag: false, steps: 40, confluent: true,
-	weights: map[string]int{"settle": 0, "k-flap": 0, "requeueCron": 1}}
+	// no re-delivery of old cron keys here: a Job whose earlier incarnation was already
+	// TTL-deleted is created again, which makes two Jobs of one JobConfig share a
+	// creation second with this phase's tick (ties break confluence; C02 covers re-delivery)
+	weights: map[string]int{"settle": 0, "k-flap": 0, "requeueCron": 0}}
 
 // genC20 generates the workload against a live fault-free world; a "settle" is
 // implied at the end of every phase.
